@@ -25,7 +25,7 @@ var c19Ops = []string{"Start", "Client", "Protocol", "ReattachConfig", "ID", "Ex
 
 func init() {
 	Register(&Prop{ID: "C19",
-		Meta: Meta{Level: "exploration", Race: true,
+		Meta: Meta{Stages: 2, Level: "exploration", Race: true,
 			Rule:       "one Client; a history of 2-8 operations over {Start, Client, Protocol, ReattachConfig, ID, Exited, Kill} issued sequentially or from up to 4 concurrent goroutines with drawn offsets; plus ONE CONTEXT SWITCH PLACED AT EVERY STATEMENT: stage 0 profiles the go-plugin statements goroutine 0 passes inside each operation of Start, Client, Kill (well-behaved and failing plugins, command and custom runner), stage 1 runs one case per (operation A, statement, operation B) in which goroutine 1 issues B exactly while goroutine 0 is at that statement of A; plugin kinds {starts correctly net/rpc, starts correctly gRPC, fails the handshake, times out, exits early} x launch {command, custom runner}; all sequences of length <=3 over {Start, Client, Kill} enumerated per plugin kind and launch, longer and concurrent histories seeded with schedule noise in Client.Start/Client/Kill; thorough tier repeats a sample under the race detector. Oracle: the kernel saw at most one spawn for this client (and no spawn after Kill returned), every successful Start returned the identical address and every successful Client the identical protocol client, no call hangs or panics, and the invoke/return history (stamped with the simulator's global event sequence numbers) is linearizable (porcupine) against a sequential reference model of the Client: {fresh, started(addr), failed, killed}",
 			Exhaustive: "all operation sequences of length <=3 over {Start, Client, Kill} x plugin kind x launch method"},
 		Plan: func(tier string, seed uint64, stage int, prev []*h.Result) []*k.Spec {
